@@ -63,7 +63,19 @@ func streamInsulate(c *ctx) {
 		}
 		devices := append([]uhppote.Device{}, g.devices...)
 		u, d := newClient(devices, g.broadcast)
-		before := routeProbe(u, d, dev) + " ; " + configOf(u)
+		var before string
+		if n%2 == 0 {
+			before = routeProbe(u, d, dev) + " ; " + configOf(u)
+		} else {
+			// the client is NOT used before the caller's list is edited (a copy taken only at first use would be too late):
+			// what it must do is what a second client does that was built from the same, unedited configuration
+			same := []uhppote.Device{}
+			for _, x := range g.devices {
+				same = append(same, x.Clone())
+			}
+			ref, dref := newClient(same, g.broadcast)
+			before = routeProbe(ref, dref, dev) + " ; " + configOf(ref)
+		}
 		what := []string{}
 		for i := range devices {
 			switch r.Intn(4) {
